@@ -77,6 +77,7 @@ struct hs_spec {
 
 extern struct hs_spec g_hs;	/* lockstep ghost inside humansize_parse() */
 extern size_t g_hs_len;		/* strlen of the input (set by the harness) */
+extern uint64_t g_hs_sz, g_hs_mult;	/* the code's *size and multiplier at the end of the loop */
 
 /* asprintf ghosts (models/num_asprintf.c) */
 extern unsigned g_asp_calls;
